@@ -29,7 +29,7 @@ func init() {
 				"reported as information.",
 			NotCovered: "that (*dns.Msg).Unpack is a function of its argument only (trusted); semantics of the " +
 				"third-party DNSCrypt and HTTP libraries' own buffers.",
-			Rules: map[string]string{"C06-R15": "packWithPrefix returns the bytes that PackBuffer returned: every returned slice got the packed message copied in behind the two-byte prefix (PackBuffer may allocate a new array although the result would have fitted, so the caller's buffer is not the message)", "C06-R16": "the plain-DNS server keeps separate pools for UDP and TCP request buffers (the TCP path shrinks pooled slices to the message length, the UDP path reads into the slice as it is)", "C06-R14": "pooled per-request state is fully re-initialised before use (ecscache cacheRequest; shared with C07-R1)", "C06-R13": "hashprefix.setInCache stores clones: the message handed to the first requester is disposed of after the write and must not be the cached one (shared with C07-R4)", "C06-R11": "ecscache.writeUpstreamResponse stores the answer before it adds this requester's client-subnet option (shared with C07-R4)", "C06-R12": "request-path code does not write into record templates shared by all requests of a server group (shared with C07-R6)", "C06-R10": "the simple cache keeps its own copy of a response; the written message goes back to the pools and is overwritten by later answers (shared with C07-R4)", "C06-R9": "a pooled buffer that is held in a field of an object outliving the call is returned by test-and-clear (one Put per object, however often the function runs for it)", "C06-R8": "cached answers are re-initialised from the current request (shared with C12-R11)", "C06-RC": "class rules (error chains, shadowed results, character classes, crossed arguments, pool constructors, array pools, loop completeness, loop-carried buffers, replacing setters, complete clones, Grow arithmetic, pooled-buffer escape, sorted searches, fresh decode targets, per-iteration objects, whole-message copies, codec guards) over the packages this property rests on", "C06-R7": "deep-copy discipline of the record constructors and the cloner (shared with C07-R5)", "C06-R6": "pooled per-request objects (filtering context, request info) are fully re-initialised when taken from the pool", "C06-R5": "a response goes back to the message pools only from writers after which nothing reads it (dispose gates, shared with C07-R3)",
+			Rules: map[string]string{"C06-R18": "the bind-to-device writer arms the socket with the deadline of every queued response before it writes it, unconditionally: a response whose deadline has passed (its sender has already given up and reused the buffer) fails instead of going out with another response's bytes", "C06-R17": "an OPT record taken from the cloner's pool starts without options (shared with C08-R6): a constructed answer carries no EDNS option of the message the record served before", "C06-R15": "packWithPrefix returns the bytes that PackBuffer returned: every returned slice got the packed message copied in behind the two-byte prefix (PackBuffer may allocate a new array although the result would have fitted, so the caller's buffer is not the message)", "C06-R16": "the plain-DNS server keeps separate pools for UDP and TCP request buffers (the TCP path shrinks pooled slices to the message length, the UDP path reads into the slice as it is)", "C06-R14": "pooled per-request state is fully re-initialised before use (ecscache cacheRequest; shared with C07-R1)", "C06-R13": "hashprefix.setInCache stores clones: the message handed to the first requester is disposed of after the write and must not be the cached one (shared with C07-R4)", "C06-R11": "ecscache.writeUpstreamResponse stores the answer before it adds this requester's client-subnet option (shared with C07-R4)", "C06-R12": "request-path code does not write into record templates shared by all requests of a server group (shared with C07-R6)", "C06-R10": "the simple cache keeps its own copy of a response; the written message goes back to the pools and is overwritten by later answers (shared with C07-R4)", "C06-R9": "a pooled buffer that is held in a field of an object outliving the call is returned by test-and-clear (one Put per object, however often the function runs for it)", "C06-R8": "cached answers are re-initialised from the current request (shared with C12-R11)", "C06-RC": "class rules (error chains, shadowed results, character classes, crossed arguments, pool constructors, array pools, loop completeness, loop-carried buffers, replacing setters, complete clones, Grow arithmetic, pooled-buffer escape, sorted searches, fresh decode targets, per-iteration objects, whole-message copies, codec guards) over the packages this property rests on", "C06-R7": "deep-copy discipline of the record constructors and the cloner (shared with C07-R5)", "C06-R6": "pooled per-request objects (filtering context, request info) are fully re-initialised when taken from the pool", "C06-R5": "a response goes back to the message pools only from writers after which nothing reads it (dispose gates, shared with C07-R3)",
 				"C06-R1": "length provenance of every (*dns.Msg).Unpack argument: Bounded | FullyRead | Fresh on all paths",
 				"C06-R3": "buffer-pool wiring: a pool field of a reader / writer is set from the server's pool field of the same name (request buffers and response buffers never share a pool)",
 				"C06-R2": "no use of a pooled receive buffer after Pool.Put on any path; Put after hand-over to a worker only inside the worker",
@@ -591,6 +591,14 @@ func (a *c06) callResult(c *ssa.Call, i int, out *[]c06leaf) {
 }
 
 func runC06(c *an.Ctx) {
+	// ---- R18: the deadline of a queued response always reaches the socket (Linux-only code)
+	if c.Config.GOOS == "" || c.Config.GOOS == "linux" {
+		c.Floor("C06-R18", 1)
+		c06QueuedDeadlineArmed(c, "C06-R18")
+	}
+	// ---- R17: pooled OPT records start empty (shared with C08-R6)
+	c.Floor("C06-R17", 1)
+	c.Borrow("C06-R17", runC08, func(o an.Obligation) bool { return o.Rule == "C08-R6" && strings.Contains(o.Key, "newOPT") })
 	// ---- R15: the prefixed message is the packed one; R16: one pool per network
 	c.Floor("C06-R15", 1)
 	c06PrefixedIsPacked(c, "C06-R15")
@@ -1352,6 +1360,7 @@ func c06PrefixedIsPacked(c *an.Ctx, rule string) {
 		var vals []ssa.Value
 		var expand func(v ssa.Value, d int)
 		expand = func(v ssa.Value, d int) {
+			v = base(v)
 			if ph, ok := v.(*ssa.Phi); ok && d < 4 {
 				for _, e := range ph.Edges {
 					expand(e, d+1)
@@ -1425,4 +1434,48 @@ func c06SeparatePools(c *an.Ctx, rule string) {
 	}
 	c.Check(same == "", rule, key, us[0].Store.Pos(), "the two fields get the results of different constructor calls",
 		"one pool is stored into both fields at "+same+": a request slice that the TCP path shrank to a short message is handed to the UDP path, which reads the next datagram into it and loses the rest")
+}
+
+// c06QueuedDeadlineArmed: a response written through a bind-to-device packet
+// connection waits in a queue; its sender waits for the result only until the
+// write deadline and then gives the buffer back to the pool.  The writer
+// (interfaceListener.writeUDP) therefore sets that deadline on the socket before
+// every write, also when it has already passed, which makes the write fail:
+// a SetWriteDeadline with the request's deadline dominates the write.
+func c06QueuedDeadlineArmed(c *an.Ctx, rule string) {
+	k := "bindtodevice.(*interfaceListener).writeUDP"
+	fn := c.Prog.Fn(k)
+	key := k + " sets the request's deadline before every write"
+	if fn == nil {
+		c.Und(rule, key, token.NoPos, "anchor not found")
+		return
+	}
+	c.Analysed(k)
+	var write ssa.CallInstruction
+	var arms []ssa.CallInstruction
+	for _, call := range an.Calls(fn) {
+		n := an.CalleeName(call)
+		switch {
+		case strings.HasSuffix(n, "interfaceListener).writeToUDPConn"):
+			write = call
+		case strings.HasSuffix(n, ").SetWriteDeadline") && len(call.Common().Args) == 2:
+			if ld, ok := call.Common().Args[1].(*ssa.UnOp); ok && ld.Op == token.MUL {
+				if _, f, _, ok := an.FieldOf(ld.X); ok && f == "deadline" {
+					arms = append(arms, call)
+				}
+			}
+		}
+	}
+	if write == nil {
+		c.Und(rule, key, fn.Pos(), "the write step (writeToUDPConn) was not found")
+		return
+	}
+	ok := false
+	for _, a := range arms {
+		if an.Dominates(a, write) {
+			ok = true
+		}
+	}
+	c.Check(ok, rule, key, write.Pos(), "SetWriteDeadline(req.deadline) dominates the write",
+		"the write at "+c.Pos(write.Pos())+" can be reached without the request's deadline having been set on the socket: a queued response whose sender has timed out and returned the buffer to the pool is written with whatever the buffer holds by then, another client's response")
 }
